@@ -31,7 +31,7 @@ func Count(v reflect.Value) int {
 
 // Distinct returns the values passed in with any duplicates removed.
 func Distinct(v reflect.Value) interface{} {
-	v = jtypes.Resolve(v)
+	v = resolveDistinctItem(v)
 
 	// To match the behavior of jsonata-js, if this is a string we should
 	// return the entire string and not dedupe the individual characters
